@@ -336,11 +336,16 @@ pub struct ConnCfg {
     pub check_certificate: bool,
     /// connect from the NT hash of the password instead of the password
     pub use_hash: bool,
+    /// the SAME Connector object was used for earlier connect() calls before being re-configured (every setter called
+    /// again) for this one: 0 none; 1 / 2 = one / two earlier attempts, configured for another account with every flag
+    /// inverted, that the server answered with RDP_NEG_FAILURE; 3 = one earlier complete connection with that other
+    /// configuration; 4 = one earlier attempt with THIS configuration answered with RDP_NEG_FAILURE
+    pub earlier_connections: u8,
 }
 
 impl Default for ConnCfg {
     fn default() -> Self {
-        ConnCfg { client: ClientCfg::default(), use_nla: true, restricted_admin: false, blank_creds: false, check_certificate: false, use_hash: false, builder_order: 0 }
+        ConnCfg { client: ClientCfg::default(), use_nla: true, restricted_admin: false, blank_creds: false, check_certificate: false, use_hash: false, builder_order: 0, earlier_connections: 0 }
     }
 }
 
@@ -369,6 +374,8 @@ pub fn connector(c: &ConnCfg) -> Connector {
         }
         // flags, credentials, flags again
         3 => flags(creds(flags(base))),
+        // the flag setters in the opposite order (certificate checking first, auto logon last), then the credentials
+        5 => creds(base.check_certificate(c.check_certificate).blank_creds(c.blank_creds).set_restricted_admin_mode(c.restricted_admin).use_nla(c.use_nla).auto_logon(c.client.auto_logon)),
         // only the calls that ask for something: every setting equal to the documented default of Connector::new()
         // (800x600, US layout, "rdp-rs", NLA on, no auto logon, no restricted admin, full credentials, no certificate
         // check) is left to that default — "not requested" means the builder call was never made
@@ -439,9 +446,55 @@ pub fn tls_connect_fragmented(cfg: &ConnCfg, mut p: ServerParams, devs: Vec<Devi
         let mut s = sh.borrow_mut();
         s.read_plan = rp;
         s.write_plan = wp;
-        s.spin_limit = 50_000_000;
+        s.spin_limit = 2_000_000;
     }
-    let r = connector(cfg).connect(link);
+    let mut k = if cfg.earlier_connections == 0 {
+        connector(cfg)
+    } else {
+        // what the object was configured for before
+        let mut other = cfg.clone();
+        other.earlier_connections = 0;
+        other.builder_order = 1;
+        if cfg.earlier_connections != 4 {
+            other.client.domain = "other".into();
+            other.client.user = "someone".into();
+            other.client.password = "else-Passw0rd".into();
+            other.client.auto_logon = !cfg.client.auto_logon;
+            other.use_nla = !cfg.use_nla;
+            other.restricted_admin = !cfg.restricted_admin;
+            other.blank_creds = !cfg.blank_creds;
+            other.check_certificate = false;
+        }
+        let mut k = connector(&other);
+        let attempts = if cfg.earlier_connections == 2 { 2 } else { 1 };
+        for _ in 0..attempts {
+            let mut p0 = ServerParams::default();
+            p0.acct_user = other.client.user.clone();
+            p0.acct_domain = other.client.domain.clone();
+            p0.acct_password = other.client.password.clone();
+            if cfg.earlier_connections == 3 {
+                p0.selected = if other.use_nla { 2 } else { 1 };
+            } else {
+                p0.cc_kind = crate::peer::CcKind::Failure;
+                p0.selected = 2;
+            }
+            let peer0 = Rc::new(RefCell::new(TlsPeer::new(p0, vec![], Cert::A)?));
+            let link0 = MemLink::with_peer(peer0.clone());
+            link0.sh.borrow_mut().spin_limit = 2_000_000;
+            let r0 = k.connect(link0);
+            if cfg.earlier_connections == 3 && r0.is_err() {
+                return Err(format!("the earlier (honest) connection of the same connector failed: {:?}", r0.err()));
+            }
+        }
+        // re-configuration: every setter is called again, credentials first (the order of the GUI client)
+        let k = if cfg.use_hash {
+            k.credentials(cfg.client.domain.clone(), cfg.client.user.clone(), String::new()).set_password_hash(vref::ntlm::nt_hash(&cfg.client.password).to_vec())
+        } else {
+            k.credentials(cfg.client.domain.clone(), cfg.client.user.clone(), cfg.client.password.clone())
+        };
+        k.screen(cfg.client.width, cfg.client.height).layout(layout_of(cfg.client.layout)).name(cfg.client.name.clone()).auto_logon(cfg.client.auto_logon).use_nla(cfg.use_nla).set_restricted_admin_mode(cfg.restricted_admin).blank_creds(cfg.blank_creds).check_certificate(cfg.check_certificate)
+    };
+    let r = k.connect(link);
     let (client, error) = match r {
         Ok(c) => (Some(c), None),
         Err(e) => (None, Some(format!("{:?}", e))),
